@@ -103,6 +103,10 @@ m("c09-svf-grid_-skips-exp", "C09", "spatial/nonrigid.py",
         if False and self.exp.align_corners != grid.align_corners():""")
 m("c09-copy-shares-buffers", "C09", "spatial/base.py",
   """        for name in ("_parameters", "_buffers", "_non_persistent_buffers_set", "_modules"):""", """        for name in ("_parameters", "_non_persistent_buffers_set", "_modules"):""")
+m("c09-register_update_hook-idempotent-by-handle", "C09", "spatial/base.py",
+  """        self._update_hook_handle = self.register_forward_pre_hook(self._update_hook)""",
+  """        if getattr(self, "_update_hook_handle", None) is None:
+            self._update_hook_handle = self.register_forward_pre_hook(self._update_hook)""")
 # ----------------------------------------------------------------------------- C07
 m("c07-inverse-keeps-invert-flag", "C07", "spatial/parametric.py",
   """        inv.invert = not self.invert
